@@ -123,6 +123,13 @@ class C05(SessionProp):
             # and not ASCII: error texts that quote the peer must survive any limit applied to them
             m = [rng.choice([0, 0, 1]), [8, [rng.choice([2, 8, 52, 80]), b"", msgs.g_long_text(rng), []], [msgs.OID_NOTICE] if rng.random() < 0.8 else [], []], []]
             data = msgs.pack(m)
+            if rng.random() < 0.4:
+                # the same message with a short diagnostic text that is ALMOST UTF-8: encoded surrogates (CESU-8),
+                # overlong forms, code points past U+10FFFF, a truncated sequence - spliced in at the octet level
+                bad = rng.choice([b"\xed\xa0\xbd\xed\xb8\x80", b"\xed\xa0\x80", b"\xed\xbf\xbf", b"\xc0\xaf", b"\xe0\x80\xaf",
+                                  b"\xf4\x90\x80\x80", b"\xf8\x88\x80\x80\x80", b"caf\xc3", b"\xef\xbf\xbe"])
+                m2 = [m[0], [8, [m[1][1][0], b"", b"PLACEHOLDER", []], m[1][2], []], []]
+                data = msgs.pack(m2).replace(b"PLACEHOLDER", bad + b"x" * (11 - len(bad)))
             chunks = [data] if rng.random() < 0.6 else chunkings(rng, data)
             return {"role": role, "pre": pre, "chunks": chunks, "calls": pre + [[RECV, c] for c in chunks] + [[RECV, b"\x30"]], "meta": None, "mut": 0}
         k = rng.randint(1, 3)
